@@ -1,12 +1,22 @@
 #!/bin/sh
-# Build the framework from files on disk only (offline): extractor, regenerated facts,
-# the whole Lean library (all theorems) and the driver executable, every harness binary.
+# Build the framework from files on disk only (offline), for every property listed in tools/ready.json:
+# extractor + regenerated facts, the Lean theorem module and the driver executable, the harness binary.
 set -e
 cd "$(dirname "$0")/.."
 export GOFLAGS=-mod=mod GOPROXY=off GOSUMDB=off GOTOOLCHAIN=local CGO_ENABLED=0
 mkdir -p bin evidence replays lean/YaegiVerif/Generated
-(cd extract && for d in cmd/*/; do n=$(basename "$d"); N=$(echo "$n" | tr a-z A-Z); go build -o ../bin/extract-$N "./cmd/$n"; ../bin/extract-$N /repo ../lean/YaegiVerif/Generated; done)
-(cd lean && lake build && for m in Mains/C*.lean; do n=$(basename "$m" .lean); if ! grep -q unimplemented "YaegiVerif/Driver/$n.lean"; then lake build "driver-$n"; fi; done)
 cp /repo/go.sum harness/go.sum 2>/dev/null || true
-(cd harness && for d in cmd/*/; do n=$(basename "$d"); go build -tags verif -o ../bin/harness-$(echo "$n" | tr a-z A-Z) "./cmd/$n"; done)
+IDS=$(python3 -c "import json;print(' '.join(json.load(open('tools/ready.json'))))")
+(cd lean && lake build YaegiVerif.Common.Audit YaegiVerif.Common.Loop)
+for ID in $IDS; do
+  id=$(echo "$ID" | tr A-Z a-z)
+  if [ -d "extract/cmd/$id" ]; then
+    (cd extract && go build -o "../bin/extract-$ID" "./cmd/$id")
+    VERIF_TIER=quick "./bin/extract-$ID" /repo lean/YaegiVerif/Generated
+  fi
+  (cd lean && lake build "driver-$ID" "YaegiVerif.Props.$ID")
+  if [ -d "harness/cmd/$id" ]; then
+    (cd harness && go build -tags verif -o "../bin/harness-$ID" "./cmd/$id")
+  fi
+done
 echo setup done
